@@ -149,7 +149,7 @@ func (w *worker) runOne(h hostileInput) (res *wResult, viol *run.Outcome, dead b
 		l, err := w.out.ReadString('\n')
 		ch <- reply{l, err}
 	}()
-	wit := map[string]any{"input_kind": h.Kind, "source_bytes": len(h.Src), "source_head": trunc(h.Src, 600)}
+	wit := map[string]any{"input_kind": h.Kind, "source_bytes": len(h.Src), "source_head": trunc(h.Src, 600), "wgsl": h.Src}
 	select {
 	case rp := <-ch:
 		if rp.err != nil {
